@@ -105,7 +105,11 @@ type DB struct {
 	closeOnce sync.Once      // For closing DB only once.
 
 	blockWrites atomic.Int32
-	isClosed    atomic.Uint32
+	// sendLock is held shared while a request is handed to writeCh. Close takes it exclusively
+	// after blocking writes, so that no sender is left between its blockWrites check and its send
+	// when the write loop is stopped and the channel is closed.
+	sendLock sync.RWMutex
+	isClosed atomic.Uint32
 
 	// gcActive is set while a vlog GC rewrite (scan + write-back) is in flight,
 	// and gcDiscardTs records the DB's max version captured at its start. While
@@ -551,6 +555,12 @@ func (db *DB) close() (err error) {
 
 	db.blockWrites.Store(1)
 	db.isClosed.Store(1)
+	// Let the senders which already passed the blockWrites check hand their requests over; the
+	// write loop is still running and picks them up before it stops. Afterwards nobody can send on
+	// writeCh any more (a late sender used to panic on the closed channel, or to wait forever for a
+	// request that no write loop would ever see).
+	db.sendLock.Lock()
+	db.sendLock.Unlock() //nolint:staticcheck
 
 	if db.closers.valueGC != nil {
 		// Stop value GC first.
@@ -915,6 +925,8 @@ func (db *DB) writeRequests(reqs []*request) error {
 }
 
 func (db *DB) sendToWriteCh(entries []*Entry) (*request, error) {
+	db.sendLock.RLock()
+	defer db.sendLock.RUnlock()
 	if db.blockWrites.Load() == 1 {
 		return nil, ErrBlockedWrites
 	}
@@ -1688,6 +1700,12 @@ func (db *DB) blockWrite() error {
 	if !db.blockWrites.CompareAndSwap(0, 1) {
 		return ErrBlockedWrites
 	}
+	// Wait for the senders which passed the blockWrites check before it flipped: their requests
+	// must reach the write loop before it stops. A request enqueued later would stay unprocessed
+	// until writes are unblocked, while its commit timestamp keeps every new read transaction
+	// (such as the one DropPrefix itself opens) waiting: a deadlock.
+	db.sendLock.Lock()
+	db.sendLock.Unlock() //nolint:staticcheck
 
 	// Make all pending writes finish. The following will also close writeCh.
 	db.closers.writes.SignalAndWait()
